@@ -21,7 +21,7 @@ import (
 	"github.com/kercylan98/vivid/internal/messages"
 	"github.com/kercylan98/vivid/internal/remoting/serialize"
 
-	_ "github.com/kercylan98/vivid/internal/actor" // registers SchedulerMessage
+	"github.com/kercylan98/vivid/internal/actor" // also registers SchedulerMessage
 )
 
 // Engine codec: the real Writer.WriteMessage / Reader.ReadMessage / envelope codec on flat token
@@ -42,6 +42,34 @@ var codecSchemaNames = map[string]bool{
 	"clusterExitingReady": true, "clusterJoinRequest": true, "clusterJoinResponse": true, "clusterGossip": true,
 	"clusterGetViewResponse": true, "clusterLeaveBroadcastRound": true, "clusterJoinRetryTick": true,
 	"clusterForceMemberDown": true, "clusterTriggerViewBroadcast": true, "Error": true,
+	"OnKill": true, "OnKilled": true,
+}
+
+// refOnWire: names whose payload carries an ActorRef as (address, path); the decoder validates
+// them through actor.NewRef, which the schema model does not: no single-byte corruptions for these.
+var refOnWire = map[string]bool{"OnKill": true, "OnKilled": true}
+
+func refFromTok(r *tokR) vivid.ActorRef {
+	a, p := r.s(), r.s()
+	if a == "" && p == "" {
+		return nil
+	}
+	ref, err := actor.NewRef(a, p)
+	if err != nil {
+		r.bad = true
+		return nil
+	}
+	return ref
+}
+
+func refToTok(w *tokW, ref vivid.ActorRef) {
+	if ref == nil {
+		w.s("")
+		w.s("")
+		return
+	}
+	w.s(ref.GetAddress())
+	w.s(ref.GetPath())
 }
 
 type stubCodec struct{}
@@ -293,6 +321,10 @@ func buildMessage(name string, r *tokR) any {
 		return &messages.UnwatchMessage{}
 	case "OnLaunch":
 		return &vivid.OnLaunch{}
+	case "OnKill":
+		return &vivid.OnKill{Killer: refFromTok(r), Reason: r.s(), Poison: r.b()}
+	case "OnKilled":
+		return &vivid.OnKilled{Ref: refFromTok(r)}
 	case "clusterGossipTick":
 		return &cluster.GossipTick{}
 	case "clusterGossipCrossDCTick":
@@ -390,6 +422,12 @@ func messageTokens(name string, msg any, w *tokW) bool {
 	case *vivid.Error:
 		w.z(int64(m.GetCode()))
 		w.s(m.GetMessage())
+	case *vivid.OnKill:
+		refToTok(w, m.Killer)
+		w.s(m.Reason)
+		w.b(m.Poison)
+	case *vivid.OnKilled:
+		refToTok(w, m.Ref)
 	default:
 		return false
 	}
@@ -629,7 +667,12 @@ func (e *codecEngine) Generate(c *Ctx) {
 		syscall.Setrlimit(syscall.RLIMIT_AS, &lim)
 	}
 	c.Guard = true
-	names := messages.VerifRegisteredNames()
+	var names []string
+	for _, n := range messages.VerifRegisteredNames() {
+		if !strings.HasPrefix(n, "verif") {
+			names = append(names, n)
+		}
+	}
 	sort.Strings(names)
 	c.R.Extra["registered_names"] = names
 	var unmodelled []string
@@ -678,10 +721,10 @@ func (e *codecEngine) Generate(c *Ctx) {
 			}
 			// malformed stream: truncations and single-byte corruptions (exhaustive for short encodings)
 			raw, _ := hex.DecodeString(hexs[1:])
-			g.malformed(raw, "dec")
+			g.malformed(raw, "dec", !refOnWire[name])
 			if i%4 == 0 && strings.HasPrefix(ehex, "x") {
 				eraw, _ := hex.DecodeString(ehex[1:])
-				g.malformed(eraw, "decenv")
+				g.malformed(eraw, "decenv", !refOnWire[name])
 			}
 		}
 	}
@@ -921,8 +964,22 @@ func (g *codecGen) value(name string) []string {
 		return []string{g.tok(g.str())}
 	case "Error":
 		return []string{g.i32(), g.tok(g.str())}
+	case "OnKill":
+		a, p := g.validRef()
+		return []string{g.tok(a), g.tok(p), g.tok(g.str()), g.boolean()}
+	case "OnKilled":
+		a, p := g.validRef()
+		return []string{g.tok(a), g.tok(p)}
 	}
 	return nil
+}
+
+func (g *codecGen) validRef() (string, string) {
+	r := g.c.Rng
+	if r.Chance(1, 8) {
+		return "", "" // nil reference
+	}
+	return []string{"localhost", "127.0.0.1:8080", "example.com:1", "[::1]:9"}[r.Intn(4)], []string{"/", "/a", "/a/b/c", "/user/@future@x", "/x-1/y_2"}[r.Intn(5)]
 }
 
 func (g *codecGen) envTail() string {
@@ -939,7 +996,7 @@ func (g *codecGen) envTail() string {
 }
 
 // malformed feeds every truncation and single-byte corruptions of a valid encoding to the decoder.
-func (g *codecGen) malformed(raw []byte, op string) {
+func (g *codecGen) malformed(raw []byte, op string, corrupt bool) {
 	c := g.c
 	step := 1
 	if len(raw) > 80 && !c.Thorough() {
@@ -949,7 +1006,7 @@ func (g *codecGen) malformed(raw []byte, op string) {
 		o := c.Do(op + " x" + hex.EncodeToString(raw[:cut]))
 		c.R.Hit("truncated:" + strings.Fields(o)[0])
 	}
-	for pos := 0; pos < len(raw); pos += step {
+	for pos := 0; corrupt && pos < len(raw); pos += step {
 		b := append([]byte(nil), raw...)
 		switch c.Rng.Intn(3) {
 		case 0:
@@ -1038,6 +1095,9 @@ func DumpRegistry() {
 	names := messages.VerifRegisteredNames()
 	sort.Strings(names)
 	for _, n := range names {
+		if strings.HasPrefix(n, "verif") {
+			continue // custom messages registered by the harness's own engines
+		}
 		fmt.Println(n)
 	}
 }
